@@ -342,22 +342,27 @@ func TestC09Range(t *testing.T) {
 			byID[it.id] = it
 		}
 
-		callerRules := rules
+		// The caller's arguments: one ID list, one filter and one rule list,
+		// handed to every call of the case (page after page), as a caller
+		// paging through a collection does.
+		argIDs := append([]string{}, ids...)
+		argRules := append([]string{}, rules...)
+
+		var argFilter *jsonapi.Filter
+		if tree != nil {
+			argFilter = tree.Build()
+		}
 
 		call := func(col jsonapi.Collection, size, num uint) ([]string, string) {
 			var (
-				f   *jsonapi.Filter
+				f   = argFilter
 				out jsonapi.Collection
 			)
-
-			if tree != nil {
-				f = tree.Build()
-			}
 
 			before := idsOf(col)
 
 			if p := oracle.Try(func() {
-				out = jsonapi.Range(col, append([]string{}, ids...), f, append([]string{}, callerRules...), size, num)
+				out = jsonapi.Range(col, argIDs, f, argRules, size, num)
 			}); p != nil {
 				return nil, "Range " + p.String()
 			}
